@@ -14,14 +14,18 @@ def universes(tier):
     us = []
     quick = pf.dedupe(pf.rxn_universe(pf.A01[:8], 2))
     special = pf.dedupe(pf.HAND + pf.SPECIAL)
+    large = pf.dedupe(pf.LARGE)
     if tier == "quick":
         us.append(("Rxn(A01[:8],2)", quick, {"threshold": 0}, 22))
         us.append(("hand+special t=0", special, {"threshold": 0}, 6))
+        us.append(("size ladder", large, {"threshold": 0}, 3))
         us.append(("hand+special t=0.5 bs=3", special, {"threshold": 0.5, "batch_size": 3}, 7))
         us.append(("hand+special t=1 bs=1", special, {"threshold": 1, "batch_size": 1}, 5))
     else:
         full = pf.dedupe(pf.rxn_universe(pf.A01, 2))
         us.append(("Rxn(A01,2)", full, {"threshold": 0}, 40))
+        us.append(("size ladder", large, {"threshold": 0}, 3))
+        us.append(("size ladder bs=1", large, {"threshold": 0, "batch_size": 1}, 3))
         for t in (0, 0.5, 1):
             for bs in (None, 1, 3):
                 us.append(("hand+special t={} bs={}".format(t, bs), special,
